@@ -2,3 +2,4 @@ import Model.Basic
 import Model.Codec
 import Model.Dict
 import Model.Find
+import Model.Stream
